@@ -725,6 +725,9 @@ func (in *Inst) Apply(op string) {
 	case "pow":
 		in.Process(in.TxRevertToPOW(h))
 	case "dpos":
+		// the block validator only admits a RevertToDPOS transaction while the state asks for
+		// one; the flag is raised by the DPoS network layer (environment), not by a block
+		in.A.SetNeedRevertToDPOSTX(true)
 		in.Process(in.TxRevertToDPOS(h))
 	default:
 		panic("unknown op " + op)
